@@ -1,13 +1,17 @@
 import Proofs.Hash
+import Proofs.HashComplete
 /-!
 # C07 — DeepHash: different content hashes differently
 
 This file currently holds (i) the negative witnesses: collisions that exist **for every hasher**
 because two different values have the same pre-image (`rfl`), which is why the claimed domain
 excludes them (`NoSpoof`, ordered mode without repeats), and (ii) the tag-separation lemmas.
-The full injectivity theorem (`H` injective ∧ hex digests ∧ NoSpoof ∧ NoNumAlias ⇒ equal hashes
-only for equivalent values) needs the unique-decodability lemma for the `,` `;` `:` `|` framing;
-it is stated in DESIGN §5/C07 and not yet proved — the level note says so.
+(iii) The injectivity theorem: `C07_equal_digests_equivalent` / `C07_different_content_differs` —
+for an injective hasher with non-empty, separator-free digests, inside NoSpoof (canonical floats,
+scalar dictionary keys on which `==` is identity), two values with equal digests are equivalent:
+same type, and recursively the same set (multiset, when repetition counts) of item digests, the
+same keys with equivalent values, the same leaf.  It rests on the unique decodability of the
+`,` `;` `:` `|` framing (`Proofs/Framing.lean`, `Proofs/HashComplete.lean`).
 -/
 namespace Hash
 open Py
@@ -59,3 +63,41 @@ theorem C07_str_vs_none (H : String → String) (hinj : Function.Injective H) (s
   exact String.ext this
 
 end Hash
+
+namespace DiffIO
+open Py Diff Hash
+
+/-- **Equal digests only for equivalent content** (default iterable mode: order ignored;
+`ignore_repetition = !c.rep`). -/
+theorem C07_equal_digests_equivalent (K : List PyVal) (hK : StrictK K) (hKo : KeyOk K) (c : IOCfg) (H : String → String)
+    (hinj : Function.Injective H) (hex : Hex H) (a b : PyVal) (ca : domC K a) (cb : domC K b)
+    (h : dh c H a = dh c H b) : verdict c (dh c H) a b = true :=
+  hashComplete_V K hK hKo c H hinj hex reprInj a b ca cb h
+
+/-- **Different content hashes differently**: the contrapositive. -/
+theorem C07_different_content_differs (K : List PyVal) (hK : StrictK K) (hKo : KeyOk K) (c : IOCfg) (H : String → String)
+    (hinj : Function.Injective H) (hex : Hex H) (a b : PyVal) (ca : domC K a) (cb : domC K b)
+    (h : verdict c (dh c H) a b = false) : dh c H a ≠ dh c H b := by
+  intro he
+  rw [hashComplete_V K hK hKo c H hinj hex reprInj a b ca cb he] at h
+  cases h
+
+/-- scalars: equal digests only for the same scalar -/
+theorem C07_scalar_injective (c : IOCfg) (H : String → String) (hinj : Function.Injective H) (a b : PyVal)
+    (ha : isBasic a = true) (hb : isBasic b = true)
+    (hsa : ∀ s, a = .str s → noSpoofS s) (hsb : ∀ s, b = .str s → noSpoofS s)
+    (hfa : ∀ n s, a = .float n s → canonFloat n s) (hfb : ∀ n s, b = .float n s → canonFloat n s)
+    (h : dh c H a = dh c H b) : a = b :=
+  dh_leaf_inj c H hinj reprInj a b ha hb hsa hsb hfa hfb h
+
+/-- the members (and, when repetition counts, multiplicities) of a list are read back from its digest -/
+theorem C07_list_members (c : IOCfg) (H : String → String) (hinj : Function.Injective H) (hex : Hex H)
+    (xs ys : List PyVal) (h : dh c H (.list xs) = dh c H (.list ys)) :
+    (addedOf (hashTable (dh c H) xs) (hashTable (dh c H) ys)) = [] ∧ (removedOf (hashTable (dh c H) xs) (hashTable (dh c H) ys)) = [] ∧
+    (repEntries c [] (hashTable (dh c H) xs) (hashTable (dh c H) ys)) = [] := by
+  have := hashComplete_nondict c H hinj hex reprInj (.list xs) (.list ys) (by intro s e; cases e) (by intro s e; cases e)
+    (by intro n s e; cases e) (by intro n s e; cases e) (by intro kvs e; cases e) h
+  simp only [verdict, Bool.and_eq_true, isEmpty_iff_nil] at this
+  exact ⟨this.1.1, this.1.2, this.2⟩
+
+end DiffIO
